@@ -212,8 +212,8 @@ def cases(draw, rows):
 
 def units(tier):
     rows = list(ROWS)
-    us = [Unit(r, check, strategy=(lambda rr=r: cases([rr])), examples=(400, 3000), shards=(1, 4)) for r in rows]
-    us.append(Unit("partition_distance", check, strategy=lambda: cases(["partition_distance"]), examples=(3000, 15000), shards=(8, 8)))
-    us.append(Unit("ci2ls/ls2ci", check, strategy=lambda: cases(["ci2ls/ls2ci"]), examples=(1500, 8000), shards=(4, 8)))
-    us.append(Unit("agreement", check, strategy=lambda: cases(["agreement"]), examples=(100, 1000), shards=(1, 2)))
+    us = [Unit(r, check, strategy=(lambda rr=r: cases([rr])), examples=(400, 12000), shards=(1, 4)) for r in rows]
+    us.append(Unit("partition_distance", check, strategy=lambda: cases(["partition_distance"]), examples=(3000, 60000), shards=(8, 8)))
+    us.append(Unit("ci2ls/ls2ci", check, strategy=lambda: cases(["ci2ls/ls2ci"]), examples=(1500, 32000), shards=(4, 8)))
+    us.append(Unit("agreement", check, strategy=lambda: cases(["agreement"]), examples=(100, 4000), shards=(1, 2)))
     return us
